@@ -58,12 +58,15 @@ type Tape struct {
 	Pools     []uint32 `json:"pools,omitempty"`
 	StepCap   int64    `json:"step_cap,omitempty"`
 	ClockBase int64    `json:"clock_base,omitempty"`
+	// Procs is what runtime.GOMAXPROCS(0) and runtime.NumCPU() return to the code
+	// under test during the run (0 = 1).
+	Procs int `json:"procs,omitempty"`
 }
 
 func (t *Tape) config() *simrt.Config {
 	simrt.ResetPools()
 	return &simrt.Config{Gaps: t.Gaps, Picks: t.Picks, Edges: t.Edges, Perms: t.Perms, Clocks: t.Clocks, Pools: t.Pools,
-		StepCap: t.StepCap, ClockBase: t.ClockBase, SpinSleep: spinSleep}
+		StepCap: t.StepCap, ClockBase: t.ClockBase, SpinSleep: spinSleep, Procs: t.Procs}
 }
 
 // TapeParams shape the distributions the streams are drawn from.
@@ -150,6 +153,10 @@ func genTape(r *rng, p TapeParams) *Tape {
 			t.Clocks[i] = kind | param<<2
 		}
 		t.ClockBase = int64(r.u64() % (4e18))
+	}
+	if p.NSched > 0 {
+		// what runtime.GOMAXPROCS(0) / NumCPU() tell the code under test
+		t.Procs = []int{1, 1, 2, 4, 8, 16, 64}[r.intn(7)]
 	}
 	return t
 }
